@@ -526,7 +526,7 @@ Proof.
   unfold check_lua_block. destruct (get_attr _ _) as [script|]; [|apply np_ok].
   apply np_bind; [apply content_np; exact Hcontent|]. intros content0 _.
   apply np_bind; [apply extract_content_np|]. intros content _.
-  destruct (o_lua o script path content) as [[cls msg]|]; [|apply np_err].
+  destruct (o_lua o script _ content) as [[cls msg]|]; [|apply np_err].
   destruct (cls =? 0); [apply np_ok|].
   destruct (cls =? 1); [|apply np_err].
   apply np_bind; [apply sev_of_np|]. intros sev _. apply np_ok.
